@@ -15,6 +15,7 @@ CONSTANTS
   FixDropBound = FALSE
   FixDeriveGuards = FALSE
   FixLateTrack = FALSE
+  FixDeleteOnAccept = FALSE
 INVARIANTS SyncNoPanic Listed SyncBounded TypeOK
 PROPERTIES NewestMono
 CONSTRAINT FirstBeforeSecond
